@@ -60,7 +60,9 @@ HEAP_FACTOR = {"class": 2}        # objects of the implementation per object of 
 def impl_run(binary, progs, gc="default", modules=None, timeout=30, heap=True):
     """heap: after the last run of every case a collection is forced and the surviving objects are counted by type
     (memory::verif_heap_stats); an empty program run the same way is the baseline (the interpreter's own objects)."""
-    cases = [case_of(item[0], item[1], gc) for item in progs]
+    # swept objects are kept in quarantine and any access to one is counted (`uaf` in the reply): every replay of every property is
+    # also a use-after-free probe of whatever the program exercised
+    cases = [dict(case_of(item[0], item[1], gc), quarantine=True) for item in progs]
     if heap:
         cases = [dict(c, stats=True) for c in cases] + [{"id": BASE_ID, "main": "", "gc": gc, "modules": {}, "natives": True, "stats": True}]
     return {c["id"]: r for c, r in zip(cases, vlib.Pool(binary, "run", timeout=timeout).map(cases))}
